@@ -84,8 +84,13 @@ def r2(F, rep):
     users = [c for c in X.calls(f) if X.callee_name(c) in ("update", "smp_biases_loop", "smp_biases_script_loop",
                                                            "calc_scripted_forces")]
     adds = [w for w, tgt in lvalue_writes(f) if "total_bias_energy" in X.key(tgt, f) and classify_write(f, w, tgt) == "add"]
-    if not users or not adds:
-        raise AnalysisBroken("calc_biases: update/add sites not found")
+    if not users:
+        raise AnalysisBroken("calc_biases: bias update sites not found")
+    if not adds:
+        # the energies are no longer summed: that is a violation of the property, not a broken analysis
+        rep.add("C08-R2", "energy|summed", f.loc(), "calc_biases() does not add the energy of each active bias to total_bias_energy",
+                False, detail="the reported energy is not the sum over the biases", func=f.q)
+        return
     def loop_head(n):
         """condition of the outermost loop enclosing n (a loop over all objects dominates what
         follows it through its header), or n itself."""
@@ -224,7 +229,8 @@ def r6(F, rep):
     prods = [c for c in X.calls(f) if X.callee_name(c) in ("calc_scripted_forces", "communicate_forces", "update")
              and c.get("cq", "").split("::")[0] in ("colvarmodule", "colvarbias")]
     if not hand:
-        raise AnalysisBroken("update_colvar_forces: add_energy(total_bias_energy) not found")
+        rep.add("C08-R6", "handoff|update_colvar_forces", f.loc(), "update_colvar_forces() never hands total_bias_energy to proxy->add_energy()",
+                False, detail="the engine applies bias forces whose energy is never reported", func=f.q)
     for h in hand:
         late = [p for p in prods if f.cfg.can_reach(h, p)]
         rep.add("C08-R6", "handoff|update_colvar_forces", f.loc(h),
